@@ -617,8 +617,10 @@ class Check:
         ev = {"property_id": self.pid, "tier": self.tier, "seed": self.seed, "level": level,
               "coverage": self.cov, "assumptions": list(assumptions), "wall_s": round(time.time() - self.t0, 2),
               "violations": len(self.violations), "known_findings_hit": self.known_hits}
-        os.makedirs(os.path.join(ROOT, "evidence"), exist_ok=True)
-        with open(os.path.join(ROOT, "evidence", self.pid + ".json"), "w") as f:
+        # a run against a scratch copy of the repository (seeded-change evaluation) must never overwrite the evidence of /repo
+        evdir = os.path.join(ROOT, "evidence") if REPO == "/repo" else os.path.join(BUILD, "evidence")
+        os.makedirs(evdir, exist_ok=True)
+        with open(os.path.join(evdir, self.pid + ".json"), "w") as f:
             json.dump(ev, f, indent=1, sort_keys=True, default=str)
         for path, no_input, summary in self.violations:
             log("[%s] %s" % (self.pid, summary[:2000]))
